@@ -90,6 +90,7 @@ pub fn judge(m: &RefMsg, suffix: &[u8], loc: &mut Local) {
 }
 
 pub fn run(ctx: &Ctx) {
+    ctx.enable_trace_pass(ctx.tier.pick(20000u64, 200000u64));
     ctx.set_rule("case = (message of U, trailing suffix); families are complete products of the field alphabets (see families.*.about); a state is a distinct (serialised bytes, suffix) pair; every case is non-trivial (a full serialise+parse round trip)");
     ctx.assume("well-formed messages outside the alphabets (other values, argument sequences longer than the stated depth) are not visited");
     let small = suffixes_small();
